@@ -693,6 +693,11 @@ func runC11(c *Ctx) {
 							set[k] = true
 						}
 					}
+					// `ch != nil` on a key of n.channels is vacuous: only channels handed over by a provider (non-nil
+					// literals, R14.4) are ever inserted
+					if set["(next(range(recv.channels))#1 != nil)"] {
+						continue
+					}
 					guards = append(guards, set)
 					guardStr = append(guardStr, fmt.Sprint(keysOf(set)))
 				}
@@ -722,6 +727,10 @@ func runC11(c *Ctx) {
 						ins = true
 					}
 					if call, ok := in.(*ssa.Call); ok && calleeName(&call.Call) == "(gomavlib.Channel).start" && v != nil && ex(call.Call.Args[0]) == ex(v) {
+						st = true
+					}
+					// Channel.start in line: go ch.run()
+					if g, ok := in.(*ssa.Go); ok && calleeName(&g.Call) == "(gomavlib.Channel).run" && v != nil && len(g.Call.Args) > 0 && ex(g.Call.Args[0]) == ex(v) {
 						st = true
 					}
 				}
@@ -964,19 +973,27 @@ func runC10(c *Ctx) {
 		}
 		r.Check(ok, "R10.2", "runReader open event", c.Pos(openCall.Pos()), "pushed once, first", why)
 	}
+	startInline := c.FnOpt("root", "Channel.start") == nil // Channel.start written in line in the node loop
 	for _, ls := range []struct{ fn, where string }{{"Channel.runReader", "Channel.run$"}, {"Channel.run", "Channel.start"}, {"Channel.start", "Node.run"}} {
+		if startInline && ls.fn == "Channel.start" {
+			r.OK("R10.2", ls.fn+" launch sites", "-", "Channel.start is written in line: Channel.run is launched directly from the node loop's new-channel case")
+			continue
+		}
 		f := c.Fn("root", ls.fn)
 		if f == nil {
 			continue
 		}
 		sites := c.callersOf(f)
+		if startInline && ls.fn == "Channel.run" {
+			ls.where = "Node.run"
+		}
 		ok := len(sites) == 1 && strings.HasPrefix(fnLocalName(sites[0].Fn), ls.where)
 		var ws []string
 		for _, s := range sites {
 			ws = append(ws, fnLocalName(s.Fn))
 		}
 		why := fmt.Sprintf("%s is launched from %v, expected exactly one site in %s (a second launch duplicates open/close events)", ls.fn, ws, ls.where)
-		if ok && ls.fn != "Channel.start" && inLoop(sites[0].Call.Block()) {
+		if ok && ls.fn != "Channel.start" && !(startInline && ls.fn == "Channel.run") && inLoop(sites[0].Call.Block()) {
 			// Channel.start's site is inside the node loop (one start per new channel); the other two run once per channel
 			ok = false
 			why = fmt.Sprintf("%s is called inside a loop in %s (%s): it runs more than once for the same channel, so its open / close events are emitted more than once", ls.fn, fnLocalName(sites[0].Fn), c.Pos(sites[0].Call.Pos()))
